@@ -106,6 +106,9 @@ def sq_units(x, u):
     return int(r)
 
 
+_FLIP = [0]
+
+
 def apply_op(t, op, gm, ref_builder):
     """returns (t, out, obs)"""
     from evo.core import trajectory
@@ -127,7 +130,12 @@ def apply_op(t, op, gm, ref_builder):
         elif name == "DeepCopy":
             t = copy.deepcopy(t)
         elif name == "TransformL":
-            t.transform(gm.mat(op["g"], op["s"]))
+            # every other call spells the flags out; the propagation switch belongs to right-multiplication and has no effect here
+            _FLIP[0] ^= 1
+            if _FLIP[0]:
+                t.transform(gm.mat(op["g"], op["s"]), right_mul=False, propagate=True)
+            else:
+                t.transform(gm.mat(op["g"], op["s"]))
         elif name == "TransformR":
             t.transform(gm.mat(op["g"]), right_mul=True)
         elif name == "TransformProp":
